@@ -226,7 +226,8 @@ func GetStreamWriter(path string, isappend bool) (*DataStreamWriter, error) {
 			return nil, err
 		}
 	}
-	wbuf := bufio.NewWriterSize(verifWrapWriter(fd, path), Conf.BufIOCap)
+	wbuf := bufio.NewWriterSize(fd, Conf.BufIOCap)
+	wbuf = verifWrapBufio(wbuf, fd, path)
 	w := &DataStreamWriter{path: path, fd: fd, wbuf: wbuf, offset: offset}
 	return w, nil
 }
